@@ -7,7 +7,7 @@
 use crate::corpus;
 use crate::fw::{known, CaseResult, Cx, Ev, Fail};
 use crate::gen::version as gv;
-use crate::oracle::dewey::{self as od, Op, Weight, OPS};
+use crate::oracle::dewey::{self as od, Weight, OPS};
 use crate::oracle::pattern as op_;
 use crate::rng::hash_strs;
 use pkgsrc::{Dewey, Pattern};
